@@ -1,5 +1,5 @@
 (* C02 - Loss recovery: any loss leaving k symbols per block still delivers the object. *)
-From FluteV Require Import Model.ObjRecv Model.Recv Spec.RecvSpec Spec.SessionSpec Proofs.RecvProofs Proofs.SessionProofs Proofs.C02Full Proofs.C02Session.
+From FluteV Require Import Model.ObjRecv Model.Recv Spec.RecvSpec Spec.SessionSpec Proofs.RecvProofs Proofs.SessionProofs Proofs.C02Full Proofs.C02RS Proofs.C02Session.
 Open Scope N_scope.
 
 (* Object-level statement, proved for the No-Code scheme without content encoding (Proofs/C02Full.v).
@@ -94,6 +94,212 @@ Proof. vm_compute. repeat split. Qed.
 Example C02_guards_are_needed :
   fst (summary 7 (receive env_ok 1 ex_files None 7 1000 ex_pkts_flag_first)) = Interrupted
   /\ fst (summary 7 (receive env_ok 1 ex2_files None 7 3 ex2_pkts)) = Errored.
+Proof. vm_compute. repeat split. Qed.
+
+(* ---------------- Reed-Solomon GF(2^8): FEC 5 (FRS28) and FEC 129 (FRS28US), Proofs/C02RS.v ----------------
+   Same setting as C02_nocode_recoverable_delivers, for ro_fec oti in {FRS28, FRS28US} with parity p = ro_parity oti.
+   The decoder is an oracle of the model (e_fec); its correctness is the EXPLICIT, TRUSTED hypothesis
+     rs_oracle_mds E oti content rep toi :
+       whenever e_fec is called for a block s < n with at least k_s shards that are genuine (distinct ESI below
+       k_s + p; the shard of ESI i < k_s is symbol (offset of s) + i of the zero-padded object, the shard of ESI
+       i >= k_s is the sender's repair symbol rep s i - rep is universally quantified), it returns the padded source
+       block rs_block oti content s (k_s * E bytes), whatever block size it is passed.
+   Nothing is assumed for fewer than k shards: the model never calls the oracle then
+   (C02_rs_oracle_only_with_k_shards), and it reassembles the block itself when all k source symbols are stored.
+   Premises beyond the No-Code ones:
+   - rs_blocks_ok: ReedSolomon::new(k, p) succeeds for every block: 0 < p and k + p <= 256  [rs_parity_zero_refuted];
+   - rs_mem_need oti L <= max: L for FEC 5, but ceil(L / E) * E for FEC 129, whose receiver accounts k * E bytes per
+     block from the source block length of the payload id  [rs129_memory_limit_refuted];
+   - genuine packets: payload id in the scheme's own layout (FEC 5: 24-bit SBN + 8-bit ESI; FEC 129: 32-bit SBN,
+     16-bit source block length = k_s, 16-bit ESI), ESI < k_s + p, payload = the encoding symbol (source symbols are
+     padded to E, as rscodec.rs create_shards does); any order, any duplication;
+   - rs_recoverable = blocks_recoverable true p ks 0 (the (sbn, esi) that arrived): every block has k distinct ESI
+     below k + p. *)
+Theorem C02_rs_recoverable_delivers : forall E oti content rep toi max fid files inst md5 pkts,
+  let L := lenN_ content in
+  rs_scheme_ok oti L -> rs_blocks_ok oti L -> fdt_entry_for files inst toi oti L md5 ->
+  writer_accepts E toi -> writes_succeed E toi -> md5_good E content md5 ->
+  rs_oracle_mds E oti content rep toi ->
+  rs_mem_need oti L <= max -> nb_blocks_of oti L <= 4097 ->
+  Forall (fun p => rs_genuine_pkt oti content rep p = true) pkts ->
+  rs_close_flag_ok oti L pkts ->
+  rs_recoverable oti L pkts = true ->
+  let (o, c) := receive E fid files inst toi max pkts in
+  r_state o = Completed
+  /\ ShapeDone content (toi, 0%nat) toi c
+  /\ forall m, complete_exact content (m, calls_of (toi, 0%nat) (c_log c)) = true
+                /\ P_C02_object (rs_recoverable oti L pkts) content [(m, calls_of (toi, 0%nat) (c_log c))] = true.
+Proof. exact rs_recoverable_delivers. Qed.
+Print Assumptions C02_rs_recoverable_delivers.
+
+(* the oracle hypothesis, unfolded once (definitions rs_k, rs_symbol, rs_block, rs_shards_genuine in Proofs/C02RS.v) *)
+Theorem C02_rs_oracle_mds_statement : forall E oti content rep toi,
+  rs_oracle_mds E oti content rep toi <->
+  (forall s size sh, s < nb_blocks_of oti (lenN_ content) ->
+     rs_k oti (lenN_ content) s <= N.of_nat (length sh) ->
+     NoDup (map fst sh)
+     /\ Forall (fun p => fst p < rs_k oti (lenN_ content) s + ro_parity oti
+                         /\ snd p = rs_symbol oti content rep s (fst p)) sh ->
+     e_fec E toi (ro_fec oti) s (rs_k oti (lenN_ content) s) (ro_e oti) size sh = Some (rs_block oti content s)).
+Proof. intros. reflexivity. Qed.
+Print Assumptions C02_rs_oracle_mds_statement.
+
+Theorem C02_rs_no_close_flag : forall oti L pkts,
+  Forall (fun p => a_close_obj p = false) pkts -> rs_close_flag_ok oti L pkts.
+Proof. exact rs_close_flag_ok_noflag. Qed.
+Print Assumptions C02_rs_no_close_flag.
+
+(* with fewer than k stored shards the Reed-Solomon block decoder of the model does not consult the oracle *)
+Theorem C02_rs_oracle_only_with_k_shards : forall E E' t oti s esi pl d,
+  ro_fec oti = FRS28 \/ ro_fec oti = FRS28US -> e_debug E = e_debug E' ->
+  (forall sh, bd_k d <= N.of_nat (length sh) ->
+     e_fec E t (ro_fec oti) s (bd_k d) (ro_e oti) (bd_size d) sh = e_fec E' t (ro_fec oti) s (bd_k d) (ro_e oti) (bd_size d) sh) ->
+  bd_push E t oti s esi pl d = bd_push E' t oti s esi pl d.
+Proof. exact rs_oracle_only_with_k_shards. Qed.
+Print Assumptions C02_rs_oracle_only_with_k_shards.
+
+(* non-vacuity: a toy systematic code with one XOR parity symbol per block and its erasure decoder (xor_dec)
+   satisfy the oracle hypothesis for a 5-byte object (E = 2, B = 2, p = 1) and for its FEC 129 variant *)
+Theorem C02_rs_oracle_hypothesis_satisfiable :
+  rs_oracle_mds env_xor exr_oti exr_content exr_rep 7 /\ rs_oracle_mds env_xor exu_oti exr_content exu_rep 7.
+Proof. exact (conj xor_dec_mds xor_dec_mds_129). Qed.
+Print Assumptions C02_rs_oracle_hypothesis_satisfiable.
+
+(* block 0 recovered from its parity symbol and one source symbol, block 1 from its parity symbol alone;
+   packets shuffled and duplicated: the premises hold and the model delivers [1;2;3;4] then [5] *)
+Example C02_rs_example_delivery :
+  forallb (rs_genuine_pkt exr_oti exr_content exr_rep) exr_pkts = true
+  /\ rs_recoverable exr_oti 5 exr_pkts = true
+  /\ map (rs_pid exr_oti) exr_pkts = [(1, 1); (0, 2); (1, 1); (0, 0); (0, 2)]
+  /\ summary 7 (receive env_xor 1 exr_files None 7 1000 exr_pkts)
+     = (Completed, [CallOpen true; CallWrite [1; 2; 3; 4] true; CallWrite [5] true; CallComplete]).
+Proof. vm_compute. repeat split. Qed.
+
+(* the new guards are needed: parity 0 (every source symbol arrives, still Errored), and FEC 129 with
+   max_size_allocated = transfer length 5 < 6 = rs_mem_need (Errored; delivered with 6) *)
+Example C02_rs_guards_are_needed :
+  rs_recoverable exz_oti 5 exz_pkts = true
+  /\ fst (summary 7 (receive env_xor 1 exz_files None 7 1000 exz_pkts)) = Errored
+  /\ rs_recoverable exu_oti 5 exu_pkts = true
+  /\ fst (summary 7 (receive env_xor 1 exu_files None 7 5 exu_pkts)) = Errored
+  /\ fst (summary 7 (receive env_xor 1 exu_files None 7 6 exu_pkts)) = Completed.
+Proof. vm_compute. repeat split. Qed.
+
+(* ---------------- RaptorQ (FEC 6) and Raptor (FEC 1), Proofs/C02RS.v ----------------
+   The block decoder of the model asks the oracle after every push.  It stores a symbol with a new ESI - RaptorQ: only
+   if its size is E (fixes D10); Raptor: padded with zeros up to ceil(block length / k_s) (fixes D10): fq_stored.
+   The codes are not modelled: [enc s i] is whatever the sender's encoder produces for (sbn, esi), universally
+   quantified.  EXPLICIT, TRUSTED hypotheses on the oracle, called with k_s and the block length of the partition:
+     fq_oracle_sound:    given genuine symbols with distinct ESI (Raptor: zero-padded as above; RaptorQ: all of E bytes),
+                         whatever it answers is the block of the object (followed by padding only if it is the last);
+     fq_oracle_complete: given genuine symbols among which all k_s source symbols, it does answer.
+   Premises beyond the No-Code ones:
+   - fq_blocks_ok: the decoder of every block can be created (fixes D28, D34): scheme-specific information (Z, N, Al)
+     present; RaptorQ: Al <> 0, E mod Al = 0, N <> 0, k_s <= 56403; Raptor: k_s <= 8192
+     [fq_scheme_missing_refuted, rq_scheme_parameters_refuted, fq_block_too_large_refuted];
+   - fq_sized_pkt: RaptorQ payloads have exactly E bytes (the sender pads the last source symbol); any other size is
+     discarded by the block decoder  [rq_symbol_size_refuted].  Raptor: no size premise (short symbols are padded,
+     raptor_short_symbol_is_padded).
+   fq_recoverable = blocks_recoverable false 0 ks 0: every source symbol of every block arrived (Spec/SessionSpec);
+   repair packets may be interleaved.  Recovery from fewer source symbols is entirely the decoder's and is not stated. *)
+Theorem C02_fq_recoverable_delivers : forall E oti content enc toi max fid files inst md5 pkts,
+  let L := lenN_ content in
+  fq_scheme_ok oti L -> fq_blocks_ok oti L -> fdt_entry_for files inst toi oti L md5 ->
+  writer_accepts E toi -> writes_succeed E toi -> md5_good E content md5 ->
+  fq_oracle_sound E oti content enc toi -> fq_oracle_complete E oti content enc toi ->
+  L <= max -> nb_blocks_of oti L <= 4097 ->
+  Forall (fun p => fq_genuine_pkt oti content enc p = true) pkts ->
+  Forall (fun p => fq_sized_pkt oti p = true) pkts ->
+  fq_close_flag_ok oti L pkts ->
+  fq_recoverable oti L pkts = true ->
+  let (o, c) := receive E fid files inst toi max pkts in
+  r_state o = Completed
+  /\ ShapeDone content (toi, 0%nat) toi c
+  /\ forall m, complete_exact content (m, calls_of (toi, 0%nat) (c_log c)) = true
+                /\ P_C02_object (fq_recoverable oti L pkts) content [(m, calls_of (toi, 0%nat) (c_log c))] = true.
+Proof. exact fq_recoverable_delivers. Qed.
+Print Assumptions C02_fq_recoverable_delivers.
+
+(* the oracle hypotheses and the new premises, unfolded once *)
+Theorem C02_fq_oracle_statements : forall E oti content enc toi,
+  (fq_oracle_sound E oti content enc toi <->
+   (forall s sh d, s < nb_blocks_of oti (lenN_ content) ->
+      NoDup (map fst sh)
+      /\ Forall (fun p => snd p = fq_stored oti (lenN_ content) s (enc s (fst p))
+                          /\ (ro_fec oti = FRaptorQ -> lenN_ (snd p) = ro_e oti)) sh ->
+      e_fec E toi (ro_fec oti) s (rs_k oti (lenN_ content) s) (ro_e oti) (obj_block_len oti (lenN_ content) s) sh = Some d ->
+      exists z, d = obj_block oti content s ++ z /\ (s + 1 < nb_blocks_of oti (lenN_ content) -> z = [])))
+  /\ (fq_oracle_complete E oti content enc toi <->
+   (forall s sh, s < nb_blocks_of oti (lenN_ content) ->
+      NoDup (map fst sh)
+      /\ Forall (fun p => snd p = fq_stored oti (lenN_ content) s (enc s (fst p))
+                          /\ (ro_fec oti = FRaptorQ -> lenN_ (snd p) = ro_e oti)) sh ->
+      (forall j, j < rs_k oti (lenN_ content) s -> has_esi j sh = true) ->
+      e_fec E toi (ro_fec oti) s (rs_k oti (lenN_ content) s) (ro_e oti) (obj_block_len oti (lenN_ content) s) sh <> None)).
+Proof. intros. split; reflexivity. Qed.
+Print Assumptions C02_fq_oracle_statements.
+
+Theorem C02_fq_premises_statements : forall oti L s x p k,
+  fq_stored oti L s x
+  = match ro_fec oti with
+    | FRaptor => x ++ repeat 0 (N.to_nat (div_ceil (obj_block_len oti L s) (N.max (rs_k oti L s) 1) - lenN_ x))
+    | _ => x
+    end
+  /\ fq_sized_pkt oti p = match ro_fec oti with FRaptorQ => lenN_ (a_payload p) =? ro_e oti | _ => true end
+  /\ (fq_blocks_ok oti L <-> forallb (fq_dec_ok oti) (source_ks oti L) = true)
+  /\ fq_dec_ok oti k
+     = match ro_fec oti, ro_scheme oti with
+       | FRaptorQ, Some (_, nn, al) =>
+         negb ((ro_e oti =? 0) || (al =? 0) || negb (ro_e oti mod al =? 0) || (nn =? 0) || (k =? 0) || (56403 <? k))
+       | FRaptor, Some _ => negb ((k =? 0) || (8192 <? k))
+       | _, _ => false
+       end.
+Proof. intros. repeat split; intros H; exact H. Qed.
+Print Assumptions C02_fq_premises_statements.
+
+(* non-vacuity: a systematic toy code whose decoder reassembles the source symbols and ignores repair symbols
+   satisfies both hypotheses for every object *)
+Theorem C02_fq_oracle_hypotheses_satisfiable : forall oti content rep toi,
+  0 < ro_e oti -> 0 < ro_b oti -> 0 < lenN_ content ->
+  fq_oracle_sound env_sys oti content (rs_symbol oti content rep) toi
+  /\ fq_oracle_complete env_sys oti content (rs_symbol oti content rep) toi.
+Proof. intros oti content rep toi. exact (sys_dec_oracle env_sys oti content rep toi (fun _ _ _ _ _ _ _ => eq_refl)). Qed.
+Print Assumptions C02_fq_oracle_hypotheses_satisfiable.
+
+Example C02_fq_example_delivery :
+  forallb (fq_genuine_pkt exq_oti exr_content exq_enc) exq_pkts = true
+  /\ forallb (fq_sized_pkt exq_oti) exq_pkts = true
+  /\ forallb (fq_dec_ok exq_oti) (source_ks exq_oti 5) = true
+  /\ map (rs_pid exq_oti) exq_pkts = [(1, 0); (0, 5); (0, 1); (1, 0); (0, 0)]
+  /\ fq_recoverable exq_oti 5 exq_pkts = true
+  /\ summary 7 (receive env_sys 1 exq_files None 7 1000 exq_pkts)
+     = (Completed, [CallOpen true; CallWrite [1; 2; 3; 4] true; CallWrite [5] true; CallComplete])
+  /\ fst (summary 7 (receive env_sys 1 exn_files None 7 1000 exq_pkts)) = Errored.
+Proof. vm_compute. repeat split. Qed.
+
+(* Raptor (FEC 1): the same object delivered; a 3-byte object whose 1-byte last source symbol the block decoder
+   pads to ceil(3 / 2) = 2 bytes before the decoder sees it *)
+Example C02_fq_example_raptor :
+  summary 7 (receive env_sys 1 exp_files None 7 1000 exp_pkts)
+  = (Completed, [CallOpen true; CallWrite [1; 2; 3; 4] true; CallWrite [5] true; CallComplete])
+  /\ forallb (fq_genuine_pkt exs_oti exs_content exs_enc) exs_pkts = true
+  /\ fq_stored exs_oti 3 0 (exs_enc 0 1) = [3; 0]
+  /\ summary 7 (receive env_sys 1 exs_files None 7 1000 exs_pkts)
+     = (Completed, [CallOpen true; CallWrite [1; 2; 3] true; CallComplete]).
+Proof. vm_compute. repeat split. Qed.
+
+(* every new premise is needed: genuine, recoverable receptions that are NOT delivered.
+   RaptorQ with Al = 0 / E mod Al <> 0 / N = 0: Errored; k above K'_max (RaptorQ) or K_max (Raptor): Errored at the
+   first packet; a RaptorQ source symbol of 1 byte instead of E = 2: discarded, the object stays Receiving *)
+Example C02_fq_guards_are_needed :
+  (exd_bad (1, 1, 0) /\ exd_bad (1, 1, 4) /\ exd_bad (1, 0, 1))
+  /\ fst (summary 7 (receive env_sys 1 (exk_files FRaptorQ 56404) None 7 100000 [rq_pkt 7 0 0 false [1]])) = Errored
+  /\ fst (summary 7 (receive env_sys 1 (exk_files FRaptor 8193) None 7 100000 [rp_pkt 7 0 0 false [1]])) = Errored
+  /\ forallb (fq_genuine_pkt exq_oti exr_content exf_enc) exf_pkts = true
+  /\ fq_recoverable exq_oti 5 exf_pkts = true
+  /\ map (fq_sized_pkt exq_oti) exf_pkts = [true; true; false]
+  /\ summary 7 (receive env_sys 1 exq_files None 7 1000 exf_pkts)
+     = (Receiving, [CallOpen true; CallWrite [1; 2; 3; 4] true]).
 Proof. vm_compute. repeat split. Qed.
 
 (* ---------------- the session level: Model/Recv.v, Proofs/C02Session.v ----------------
